@@ -187,6 +187,7 @@ func (C19) Execute(sc *core.Scenario, keepLog bool) *core.Result {
 		}
 		// a few messages to work on
 		for ui := 0; ui < nusers; ui++ {
+			ss[ui].s.Cmd("CREATE other")
 			for k := 0; k < 3; k++ {
 				g := e.NewMessage(k, gen.Opts{})
 				ss[ui].s.Do(wire.WithLiteral("APPEND INBOX ", g.Bytes, ""))
@@ -240,7 +241,7 @@ func (C19) Execute(sc *core.Scenario, keepLog bool) *core.Result {
 					if n == 0 {
 						return
 					}
-					text = fmt.Sprintf("COPY %d INBOX", 1+abs(a.Arg(1))%n)
+					text = fmt.Sprintf("COPY %d other", 1+abs(a.Arg(1))%n)
 				case 6:
 					text = "SEARCH ALL"
 				case 7:
@@ -378,8 +379,9 @@ func (C19) Execute(sc *core.Scenario, keepLog bool) *core.Result {
 			}
 		}
 		settle := func() {
-			// release stalls so that everything can finish, run to quiescence, judge liveness
-			e.W.Quiesce()
+			// release stalls so that everything can finish (a goroutine waiting for a sync.Mutex
+			// held by a writer blocked on a stalled connection is not durably blocked for
+			// synctest: quiescence would never be reported), run to quiescence, judge liveness
 			for _, cs := range ss {
 				if cs.stall {
 					cs.stall = false
@@ -415,13 +417,27 @@ func (C19) Execute(sc *core.Scenario, keepLog bool) *core.Result {
 				return
 			}
 			seenTags := map[*world.Sess]map[string]bool{}
+			for _, cs := range ss {
+				seenTags[cs.s] = map[string]bool{}
+				if cs.s.C.Dead {
+					continue
+				}
+				lines, _ := cs.s.Poll()
+				for _, l := range lines {
+					seenTags[cs.s][l.Tag] = true
+				}
+				if cs.idle && seenTags[cs.s][cs.idleTag] {
+					cs.idle = false // IDLE was refused or ended by the server
+				}
+			}
 			for _, p := range pending {
 				if seenTags[p.s] == nil {
 					seenTags[p.s] = map[string]bool{}
-					lines, _ := p.s.Poll()
-					for _, l := range lines {
-						seenTags[p.s][l.Tag] = true
-					}
+				}
+				if p.text == "DONE" && !seenTags[p.s][p.tag] {
+					// DONE sent to a session whose IDLE had been refused is answered with an
+					// untagged BAD: not a missing completion
+					seenTags[p.s][p.tag] = seenTags[p.s]["*"]
 				}
 			}
 			for _, p := range pending {
